@@ -25,7 +25,8 @@ RULE = ("Hypothesis draws a term list t1..tn (term kinds cycle through bare / sc
         "balanced/vectorised build and the sequential float/jet fold, and no RecursionError / UnknownOperatorError / "
         "InvalidExpressionError may escape.  Non-trivial = n >= T (the iterative algorithms ran) and the chain has a "
         "non-+ operator or a term that is not a bare variable."
-        "  Also: the check body runs in a fresh thread under Python's default recursion limit (1000); terms may be classified before the chain (cache state); wrt may be an equal-by-name fresh Variable; affine chains (incl. reductions over reversed views and division by a constant sub-expression) are also sent through solve() with method auto and compared with the balanced build.")
+        "  Also: the check body runs in a fresh thread under Python's default recursion limit (1000); terms may be classified before the chain (cache state); wrt may be an equal-by-name fresh Variable; affine chains (incl. reductions over reversed views and division by a constant sub-expression) are also sent through solve() with method auto and compared with the balanced build."
+        ' Also (round 6): VectorExpression([x_i, x_j, number]).sum() terms.')
 BUDGET = {"quick": {"workers": 16, "examples": 120}, "thorough": {"workers": 16, "examples": 3000}}
 ASSUMPTIONS = ["only left-deep accumulation is demanded at depth (the documentation excludes right-skewed chains)",
                "compile_gradient of * and / chains is observed only for n <= 60 (its cost grows like n^2.7)"]
